@@ -1,0 +1,28 @@
+//go:build verif
+
+package dnsbl
+
+import (
+	"context"
+	"net"
+
+	"github.com/foxcpp/maddy/framework/dns"
+	"github.com/foxcpp/maddy/framework/module"
+)
+
+// Export shims for the verification harness (/verif/harness/dnsblcheck).
+// They add no behaviour: a setter for the resolver (to be called before Init,
+// so that the RFC 5782 self-test of Init uses it too), the decision function
+// with its real arguments and the configuration as Init parsed it.
+
+func (bl *DNSBL) VerifSetResolver(r dns.Resolver) { bl.resolver = r }
+
+func (bl *DNSBL) VerifCheckLists(ctx context.Context, ip net.IP, ehlo, mailFrom string) module.CheckResult {
+	return bl.checkLists(ctx, ip, ehlo, mailFrom)
+}
+
+func (bl *DNSBL) VerifLists() []List { return append([]List(nil), bl.bls...) }
+
+func (bl *DNSBL) VerifThresholds() (quarantine, reject int, early bool) {
+	return bl.quarantineThres, bl.rejectThres, bl.checkEarly
+}
